@@ -47,5 +47,6 @@ with ThreadPoolExecutor(max_workers=6) as ex:
         matrix[name] = {"false_alarms": alarms, "analysis_errors": errors}
         n = sum(len(v) for v in alarms.values())
         print(f"{name}: {'SILENT' if not alarms and not errors else 'ALARM' if alarms else 'ERROR'} alarms={n} in {sorted(alarms)} errors={sorted(errors)}")
-if not only:
-    json.dump(matrix, open(f"{V}/benign/MATRIX.json", "w"), indent=1, sort_keys=True)
+if only and os.path.exists(f"{V}/benign/MATRIX.json"):  # partial run: merge into the last full matrix
+    matrix = {**json.load(open(f"{V}/benign/MATRIX.json")), **matrix}
+json.dump(matrix, open(f"{V}/benign/MATRIX.json", "w"), indent=1, sort_keys=True)
